@@ -271,6 +271,10 @@ func Main[C any](t *testing.T, sp Spec[C]) {
 		}
 		if v.Inconclusive {
 			st.Inconclusive++
+			if st.Inconclusive <= 3 && v.Msg != "" {
+				// the first few reasons go to the shard's log (the driver quotes the counts only)
+				fmt.Fprintf(os.Stderr, "inconclusive case: %s\n", firstRunes(v.Msg, 600))
+			}
 		}
 		if v.NonTrivial && v.OK {
 			st.NonTrivial++
@@ -390,4 +394,11 @@ func replay[C any](t *testing.T, sp Spec[C], out string, known map[string]Findin
 		r.Verdict.History = nil
 		emit(r)
 	}
+}
+
+func firstRunes(s string, n int) string {
+	if len(s) > n {
+		return s[:n] + "..."
+	}
+	return s
 }
